@@ -114,7 +114,30 @@ TARGETS = [
                1: dict(name='SLB', frame=['it', 'cnt', 'ret', 'count', 'ptr', 'iov', 'OUTS'], pure=['PRE_STEP'], ptr_targets={})}),
 ]
 
+# ---- owning-vector wrappers: one generated unit + proof per wrapper (the same template, the wrapper's lowered text at WRAPPER)
+WF = fields_rule(['iov_begin', 'iov_end', 'iovs'], min_fires=0)
+WRULES = [(r'(?:auto|__auto_type) va = view\(\);', 'struct iovector_view va = OWN_view(this);', 1),
+          (r'\bva\.(shrink_to|extract_front|extract_back)\(', r'VOP_\1(&va, ', 1), WF]
+WRAPPERS = [('shrink_to', r'size_t shrink_to\(size_t size\)\s*(?=\{\s*auto va = view\(\);)', 'size', 'K_SHRINK'),
+            ('extract_front', r'size_t extract_front\(size_t bytes\)\s*(?=\{\s*auto va = view\(\);)', 'bytes', 'K_FRONT'),
+            ('extract_front_buf', r'size_t extract_front\(size_t bytes, void\* buf\)\s*(?=\{\s*auto va = view\(\);)', 'bytes', 'K_FRONT'),
+            ('extract_back', r'size_t extract_back\(size_t bytes\)\s*(?=\{\s*auto va = view\(\);)', 'bytes', 'K_BACK'),
+            ('extract_back_buf', r'size_t extract_back\(size_t bytes, void\* buf\)\s*(?=\{\s*auto va = view\(\);)', 'bytes', 'K_BACK')]
+TARGETS += [
+    Target('own_iovec', HDR, r'struct iovec\* iovec\(\)\s*(?=\{)', rules=[(r'do_assert\(\);', 'do_assert_(this);', 1), (r'iovs_ptr\(\)', 'OWN_iovs_ptr(this)', 1), WF]),
+    Target('own_iovcnt', HDR, r'uint16_t iovcnt\(\) const\s*(?=\{)', rules=[(r'do_assert\(\);', 'do_assert_(this);', 1), WF]),
+    Target('own_view', HDR, r'iovector_view view\(\) const\s*(?=\{\s*return iovector_view\(\(struct iovec\*\)iovec\(\), iovcnt\(\)\);)', rules=[
+        (r'return iovector_view\(\(struct iovec\*\)iovec\(\), iovcnt\(\)\);', 'return (struct iovector_view){ (struct iovec*)OWN_iovec(this), OWN_iovcnt(this) };', 1)]),
+] + [Target('w_' + n, HDR, loc, rules=WRULES) for (n, loc, a, k) in WRAPPERS]
+def _mk_wrap(n, a, k):
+    def gen(lowered):
+        t = open(__file__.rsplit('/', 1)[0] + '/wrap.c.in').read()
+        return t.replace('/*@BODY WRAPPER@*/', '/*@BODY w_%s@*/' % n).replace('ARG0', a).replace('EXPECT_KIND', k)
+    gen.__name__ = 'wrap_' + n
+    return gen
 UNITS = {'iov.c': 'iov.c.in'}
+for (_n, _loc, _a, _k) in WRAPPERS:
+    UNITS['wrap_%s.c' % _n] = _mk_wrap(_n, _a, _k)
 # element bases are abstract addresses (the buffers they describe are not modelled as objects), so pointer-overflow
 # checks on address arithmetic over them are off; array bounds / dereference / integer checks stay on
 CHECKS = ['--no-standard-checks', '--bounds-check', '--pointer-check', '--div-by-zero-check', '--signed-overflow-check',
@@ -148,6 +171,7 @@ PROOFS = [
           bound='at most 16 elements and output slots (input-size bound), any lengths and byte count'),
     Proof('pipe_iov', 'iov.c', 'h_pipe_iov', kind='L', min_obligations=10, backend='cadical', defines=['NMAX=16'], timeout=2400, checks=CHECKS,
           bound='at most 16 destination and 16 source elements (input-size bound), any lengths, 0-element destination views included'),
+] + [Proof('wrapper/%s' % _n, 'wrap_%s.c' % _n, 'h_wrapper', kind='L', min_obligations=4, checks=CHECKS) for (_n, _loc, _a, _k) in WRAPPERS] + [
     Proof('iov_iterator/ctor', 'iov.c', 'h_it_ctor', kind='L', min_obligations=4, **CV),
     Proof('lemma/pre_mono', 'iov.c', 'lemma_pre_mono', kind='L', min_obligations=3, **CV),
 ]
